@@ -85,6 +85,27 @@ def functions(G):
         return ys + c
     F["reverse-scan-inside"] = (f_rscan, [((v3,), (0,), None), ((2.0,), (None,), 3)])
 
+    def f_scan2(a):
+        # a site at control-flow depth 2 (scan in scan), none directly in the outer body
+        def inner(c, t):
+            s = pp(a + c, t)
+            return c + 1.0, s
+
+        def outer(c, t):
+            c2, ys = jax.lax.scan(inner, c + t, jnp.arange(2.0))
+            return c2, jnp.sum(ys)
+        _, zs = jax.lax.scan(outer, 0.0, jnp.arange(2.0))
+        return zs
+    F["scan-in-scan"] = (f_scan2, [((v3,), (0,), None), ((2.0,), (None,), 3)])
+
+    def f_cond_in_scan(a):
+        def body(c, t):
+            s = jax.lax.cond(t > 0, lambda: pp(a + c, 1.0), lambda: pp(a - c, 2.0) * 1.0)
+            return c + 1.0, s
+        _, ys = jax.lax.scan(body, 0.0, jnp.arange(3.0))
+        return ys
+    F["cond-in-scan"] = (f_cond_in_scan, [((v3,), (0,), None), ((2.0,), (None,), 3)])
+
     def f_cond(a, flag):
         return jax.lax.cond(flag > 0, lambda: pp(a, 1.0), lambda: pp(a, 2.0) * 1.0)
     F["cond-inside"] = (f_cond, [((v3, jnp.array([1.0, -1.0, 1.0])), (0, 0), None), ((v3, 1.0), (0, None), None)])
@@ -145,9 +166,12 @@ def check_function(G, ctx, name, f, args, in_axes, axis_size):
             "arg_shapes": [str(jax.tree_util.tree_map(jnp.shape, a)) for a in args]}
     try:
         n = axis_len(args, in_axes, axis_size)
-        want = jnp.stack([f(*sl) for sl in slices(args, in_axes, n)])
+        # per-slice reference, evaluated under seed (sites inside scan/cond cannot be evaluated unseeded: C14); the probe
+        # sampler ignores its key, so the reference is a deterministic function of the slice
+        want = jnp.stack([G.seed(f)(jr.key(0), *sl) for sl in slices(args, in_axes, n)])
     except Exception as ex:
-        return
+        impl.reset_handlers()
+        raise common.Infra(f"per-slice reference of {name} could not be evaluated: {type(ex).__name__}: {str(ex)[:200]}")
     try:
         got = G.seed(G.modular_vmap(f, in_axes=in_axes, axis_size=axis_size))(jr.key(1), *args)
     except Exception as ex:
@@ -184,6 +208,11 @@ def independence(G, ctx):
         "sample_shape": (lambda x: normal.sample(x * 0.0, 1.0, sample_shape=(3,)), (jnp.zeros(4),), (0,), None),
         "nested": (lambda x: G.modular_vmap(lambda: normal.sample(0.0, 1.0), in_axes=(), axis_size=3)() + 0.0 * x, (jnp.zeros(4),), (0,), None),
         "in-scan": (lambda x: jax.lax.scan(lambda c, t: (c, normal.sample(c * 0.0, 1.0)), x, jnp.arange(3))[1], (jnp.zeros(4),), (0,), None),
+        # lane-INDEPENDENT parameters at control-flow depth 2: a rule that leaves nested bodies to JAX would broadcast one draw
+        "scan-in-scan(unbatched)": (lambda x: jax.lax.scan(lambda c, t: (c, jax.lax.scan(lambda c2, t2: (c2, normal.sample(0.0, 1.0)), 0.0, jnp.arange(2))[1]), 0.0, jnp.arange(2))[1] + 0.0 * x,
+                                    (jnp.zeros(3),), (0,), None),
+        "cond-in-scan(unbatched)": (lambda x: jax.lax.scan(lambda c, t: (c, jax.lax.cond(t > 0, lambda: normal.sample(0.0, 1.0), lambda: normal.sample(1.0, 2.0))), 0.0, jnp.arange(2))[1] + 0.0 * x,
+                                    (jnp.zeros(3),), (0,), None),
     }
     for name, (f, args, ia, asz) in progs.items():
         out = np.asarray(G.seed(G.modular_vmap(f, in_axes=ia, axis_size=asz))(jr.key(2), *args)).reshape(-1)
